@@ -170,15 +170,13 @@ Section Correct.
   Lemma c_shift : forall sp h F base st op x y,
     op = Shl \/ op = Shr ->
     s_stack st = V64 y :: V64 x :: base ->
-    computes sp h F base
-      [ILocalSet tmpB; ILocalSet tmpA; ILocalGet tmpB; IConst (V64 SHIFT_LIMIT); IBin I64LtS;
-       IIf 1 [ILocalGet tmpA; ILocalGet tmpB; IBin (arith_op op)] [IConst (V64 0)]]
-      (arith_int op x y) st.
+    computes sp h F base (shift_tail op) (arith_int op x y) st.
   Proof.
     intros sp h F base st op x y Hop Hs.
+    unfold shift_tail, EmitFacts.shift_guard_cmp, EmitFacts.shift_guard_else.
     assert (N : arith_int op x y <> VUndef) by (destruct Hop; subst op; cbn; destruct (64 <=? y); discriminate).
     split; [intros _|intros E; contradiction].
-    unfold SHIFT_LIMIT.
+    unfold SHIFT_LIMIT, EmitFacts.shift_guard_const.
     destruct (64 <=? y) eqn:G.
     - (* count >= 64: the result is 0 *)
       assert (V : arith_int op x y = VInt 0) by (destruct Hop; subst op; cbn; rewrite G; reflexivity).
@@ -238,13 +236,10 @@ Section Correct.
   Lemma c_div : forall sp h F base st x y,
     hspec host (h_code h) F -> (sp <= Z.to_nat MAX_VARS)%nat ->
     s_stack st = V64 y :: V64 x :: base ->
-    computes sp h F base
-      (throw_if_zero h ++
-       [ILocalSet tmpB; ILocalSet tmpA; ILocalGet tmpB; IConst (V64 (-1)); IBin I64Eq;
-        IIf 1 [IConst (V64 0); ILocalGet tmpA; IBin I64Sub] [ILocalGet tmpA; ILocalGet tmpB; IBin I64DivS]])
-      (arith_int Div x y) st.
+    computes sp h F base (div_tail h) (arith_int Div x y) st.
   Proof.
     intros sp h F base st x y HF Hsp Hs. cbn [arith_int].
+    unfold div_tail, EmitFacts.div_zero_guard, EmitFacts.div_minus_one_branch. cbv beta iota.
     destruct (y =? 0) eqn:Z0.
     - apply Z.eqb_eq in Z0. subst y. split; [intros E; contradiction | intros _ rest].
       destruct (tiz_zero h F st _ (
@@ -287,9 +282,10 @@ Section Correct.
   Lemma c_mod : forall sp h F base st x y,
     hspec host (h_code h) F -> (sp <= Z.to_nat MAX_VARS)%nat ->
     s_stack st = V64 y :: V64 x :: base ->
-    computes sp h F base (throw_if_zero h ++ [IBin I64RemS]) (arith_int Mod x y) st.
+    computes sp h F base (mod_tail h) (arith_int Mod x y) st.
   Proof.
     intros sp h F base st x y HF Hsp Hs. cbn [arith_int].
+    unfold mod_tail, EmitFacts.mod_zero_guard. cbv beta iota.
     destruct (y =? 0) eqn:Z0.
     - apply Z.eqb_eq in Z0. subst y. split; [intros E; contradiction | intros _ rest].
       destruct (tiz_zero h F st _ ([IBin I64RemS] ++ rest) HF Hs) as [st1 [K B]].
@@ -344,7 +340,8 @@ Section Correct.
     exists st', keeps sp st st' /\ s_stack st' = s_stack st /\ s_done st' = true /\
       forall rest o, bs rest st' o -> bs (search_check ++ rest) st o.
   Proof.
-    intros sp st. unfold search_check. destruct (s_done st) eqn:D.
+    intros sp st. unfold search_check, EmitFacts.search_check_unconditional, EmitFacts.search_check_before_every_pattern_op. cbv beta iota. cbn [andb].
+    destruct (s_done st) eqn:D.
     - exists st. split; [apply keeps_refl|]. split; [reflexivity|]. split; [exact D|].
       intros rest o Hr. cbn [app]. apply step_done. rewrite D. cbn [b2z].
       eapply step_if; [reflexivity | cbn [Z.eqb]; apply BNil |].
@@ -766,4 +763,432 @@ Section Correct.
       + intros _. split; reflexivity.
       + intros E; discriminate.
   Qed.
+
+  (* ------------------------------------------------------------ main theorem *)
+  (* the part of the fragment without loops and without `of` *)
+  Fixpoint frag1 (e : expr) : bool :=
+    match e with
+    | EBool _ | EInt _ | EFilesize | EVar _ | EGlobal _ | ERule _ => true
+    | ENot a | EDefined a | ENeg a | EBitNot a | ERead _ a | EOffset _ a | ELength _ a => frag1 a
+    | EAnd a b | EOr a b | EArith _ a b | ECmp _ a b | EPat _ _ a b | ECount _ _ a b | EWith _ a b => frag1 a && frag1 b
+    | _ => false
+    end.
+
+  Definition Ok (e : expr) : Prop :=
+    forall g sp h F vars st t,
+      tyof g sp e = Some t -> R g sp (env_of vars) st -> hspec host (h_code h) F ->
+      types_as t (eval (env_of vars) e) /\
+      computes sp h F (s_stack st) (emit g sp h e) (eval (env_of vars) e) st.
+
+  Lemma R_filesize : forall g sp vars st, R g sp (env_of vars) st -> s_filesize st = Z.of_nat (length data).
+  Proof. intros g sp vars st [H _]. exact H. Qed.
+  Lemma R_sp : forall g sp vars st, R g sp (env_of vars) st -> (sp <= Z.to_nat MAX_VARS)%nat.
+  Proof. intros g sp vars st [_ [H _]]. exact H. Qed.
+
+  Lemma R_more_slots : forall g sp vars st, R g sp (env_of vars) st -> (S sp <= Z.to_nat MAX_VARS)%nat ->
+    R g (S sp) (env_of vars) st.
+  Proof.
+    intros g sp vars st [Hf [Hs [Hw Hv]]] Hb. repeat split; auto.
+    - destruct (Hv x slot t H). lia.
+    - destruct (Hv x slot t H). assumption.
+  Qed.
+
+  Lemma R_bind : forall g sp vars st st' x t v,
+    R g sp (env_of vars) st -> keeps sp st st' -> (S sp <= Z.to_nat MAX_VARS)%nat ->
+    var_ok st' sp t v ->
+    R ((x, (sp, t)) :: g) (S sp) (env_of ((x, v) :: vars)) st'.
+  Proof.
+    intros g sp vars st st' x t v HR K Hb OK.
+    pose proof (R_keeps _ _ _ _ _ HR K) as [Hf [Hs [Hw Hv]]].
+    repeat split; auto.
+    - cbn [clookup] in H. destruct (Nat.eqb x0 x); [injection H as <- <-; lia | destruct (Hv x0 slot t0 H); lia].
+    - cbn [clookup] in H. cbn [env_of e_vars lookup]. destruct (Nat.eqb x0 x).
+      + injection H as <- <-. exact OK.
+      + destruct (Hv x0 slot t0 H). assumption.
+  Qed.
+
+  Theorem emit_ok1 : forall e, frag1 e = true -> Ok e.
+  Proof.
+    induction e; intros Fr; try discriminate Fr; unfold Ok; intros cg sp h F vars st t Ht HR HF.
+    - (* EBool *) cbn in Ht. injection Ht as <-. split; [reflexivity|]. cbn [emit eval]. apply c_const; [discriminate|reflexivity].
+    - (* EInt *) cbn in Ht. injection Ht as <-. split; [reflexivity|]. cbn [emit eval]. apply c_const; [discriminate|reflexivity].
+    - (* EFilesize *) cbn in Ht. injection Ht as <-. split; [reflexivity|]. cbn [emit eval env_of e_len].
+      apply c_filesize. exact (R_filesize _ _ _ _ HR).
+    - (* EVar *) cbn [tyof] in Ht. destruct (clookup x cg) as [[slot t']|] eqn:L; [|discriminate]. cbn in Ht. injection Ht as <-.
+      cbn [emit eval env_of e_vars]. rewrite L. exact (c_var cg sp h F vars st x slot t' HF HR L).
+    - (* EGlobal *) cbn [tyof] in Ht. cbn [emit eval env_of e_globals]. rewrite Ht.
+      pose proof (globals_typed g t Ht) as Tg. split; [exact Tg|].
+      destruct t.
+      + destruct (bool_or_undef _ Tg) as [E | [b E]]; rewrite E.
+        * eapply (c_call_undef sp h F (s_stack st) st (HLookupBool g) [] 1 (V32 0)); try reflexivity; try exact HF; try exact I.
+          -- cbn [host_spec]. rewrite E. reflexivity.
+          -- intros N; contradiction.
+        * eapply (c_call_undef sp h F (s_stack st) st (HLookupBool g) [] 0 (V32 (b2z b))); try reflexivity; try exact HF; try exact I.
+          -- cbn [host_spec]. rewrite E. reflexivity.
+          -- intros _. split; reflexivity.
+          -- intros N; discriminate.
+      + destruct (int_or_undef _ Tg) as [E | [z E]]; rewrite E.
+        * eapply (c_call_undef sp h F (s_stack st) st (HLookupInt g) [] 1 (V64 0)); try reflexivity; try exact HF; try exact I.
+          -- cbn [host_spec]. rewrite E. reflexivity.
+          -- intros N; contradiction.
+        * eapply (c_call_undef sp h F (s_stack st) st (HLookupInt g) [] 0 (V64 z)); try reflexivity; try exact HF; try exact I.
+          -- cbn [host_spec]. rewrite E. reflexivity.
+          -- intros _. split; reflexivity.
+          -- intros N; discriminate.
+    - (* ERule *) cbn in Ht. injection Ht as <-. split; [reflexivity|]. cbn [emit eval env_of e_rules]. apply c_rule.
+    - (* ENot *) cbn [frag1] in Fr. cbn [tyof] in Ht.
+      destruct (tyof cg sp e) as [[|]|] eqn:Ta; try discriminate. injection Ht as <-.
+      destruct (IHe Fr cg sp h F vars st TBool Ta HR HF) as [Tv Ha].
+      cbn [eval]. split; [destruct (eval (env_of vars) e); try exact I; reflexivity|].
+      cbn [emit]. rewrite Ta, app_nil_r.
+      eapply computes_bind; [exact Ha | intros ->; reflexivity |].
+      intros N st' K S. destruct (bool_or_undef _ Tv) as [E | [b E]]; [contradiction|]. rewrite E in *.
+      cbn [v_not]. eapply c_un; [exact S | reflexivity | discriminate | destruct b; reflexivity].
+    - (* EAnd *) cbn [frag1] in Fr. apply andb_true_iff in Fr. destruct Fr as [Fr1 Fr2]. cbn [tyof] in Ht.
+      destruct (tyof cg sp e1) as [[|]|] eqn:Ta; try discriminate.
+      destruct (tyof cg sp e2) as [[|]|] eqn:Tb; try discriminate. injection Ht as <-.
+      cbn [eval]. split; [reflexivity|].
+      assert (HR0 : R cg sp (env_of vars) (set_stack st [])) by (eapply R_keeps; [exact HR | apply keeps_stack]).
+      destruct (IHe1 Fr1 cg sp h0 F0 vars (set_stack st []) TBool Ta HR0 hspec_h0) as [Tva Ha].
+      cbn [emit]. rewrite Ta, Tb. unfold catch_undef. rewrite !app_nil_r. fold h0.
+      pose proof (c_and_body sp (set_stack st []) (emit cg sp h0 e1) (emit cg sp h0 e2)
+                    (eval (env_of vars) e1) (eval (env_of vars) e2) Ha eq_refl Tva) as Body.
+      assert (Hb : forall st', keeps sp (set_stack st []) st' -> s_stack st' = [] ->
+                    computes sp h0 F0 [] (emit cg sp h0 e2) (eval (env_of vars) e2) st').
+      { intros st' K S. assert (HR' : R cg sp (env_of vars) st') by (eapply R_keeps; eassumption).
+        destruct (IHe2 Fr2 cg sp h0 F0 vars st' TBool Tb HR' hspec_h0) as [_ Hb]. rewrite S in Hb. exact Hb. }
+      specialize (Body Hb).
+      pose proof (c_block_catch sp h F st _ _ Body) as Blk.
+      destruct (IHe2 Fr2 cg sp h0 F0 vars (set_stack st []) TBool Tb HR0 hspec_h0) as [Tvb _].
+      replace (VBool (truthy (eval (env_of vars) e1) && truthy (eval (env_of vars) e2)))
+        with (or_false (match eval (env_of vars) e1 with VBool true => eval (env_of vars) e2 | _ => VUndef end)).
+      + exact Blk.
+      + destruct (bool_or_undef _ Tva) as [-> | [[|] ->]]; try reflexivity.
+        rewrite (or_false_bool _ Tvb). reflexivity.
+    - (* EOr *) cbn [frag1] in Fr. apply andb_true_iff in Fr. destruct Fr as [Fr1 Fr2]. cbn [tyof] in Ht.
+      destruct (tyof cg sp e1) as [[|]|] eqn:Ta; try discriminate.
+      destruct (tyof cg sp e2) as [[|]|] eqn:Tb; try discriminate. injection Ht as <-.
+      cbn [eval]. split; [reflexivity|].
+      assert (HR0 : R cg sp (env_of vars) (set_stack st [])) by (eapply R_keeps; [exact HR | apply keeps_stack]).
+      destruct (IHe1 Fr1 cg sp h0 F0 vars (set_stack st []) TBool Ta HR0 hspec_h0) as [Tva Ha].
+      destruct (IHe2 Fr2 cg sp h0 F0 vars (set_stack st []) TBool Tb HR0 hspec_h0) as [Tvb _].
+      cbn [emit]. rewrite Ta, Tb. unfold catch_undef. rewrite !app_nil_r. fold h0.
+      apply (c_or sp h F st _ _ _ _ Tva Tvb Ha).
+      intros st' K. assert (HR' : R cg sp (env_of vars) (set_stack st' [])) by (eapply R_keeps; [exact HR | eapply keeps_trans; [exact K | apply keeps_stack]]).
+      destruct (IHe2 Fr2 cg sp h0 F0 vars (set_stack st' []) TBool Tb HR' hspec_h0) as [_ Hb]. exact Hb.
+    - (* EDefined *) cbn [frag1] in Fr. cbn [tyof] in Ht.
+      destruct (tyof cg sp e) as [ta|] eqn:Ta; try discriminate. injection Ht as <-.
+      cbn [eval]. split; [reflexivity|].
+      assert (HR0 : R cg sp (env_of vars) (set_stack st [])) by (eapply R_keeps; [exact HR | apply keeps_stack]).
+      destruct (IHe Fr cg sp h0 F0 vars (set_stack st []) ta Ta HR0 hspec_h0) as [Tv Ha].
+      cbn [emit]. rewrite Ta. unfold catch_undef. fold h0.
+      destruct ta.
+      + rewrite app_nil_r.
+        pose proof (c_block_catch sp h F st _ _ (c_defined_body sp (set_stack st []) _ _ Ha eq_refl)) as Blk.
+        replace (VBool (negb (is_undef (eval (env_of vars) e))))
+          with (or_false (match eval (env_of vars) e with VUndef => VUndef | _ => VBool true end));
+          [exact Blk | destruct (eval (env_of vars) e); reflexivity].
+      + pose proof (c_cast sp h0 F0 [] _ _ _ Ha Tv) as Hc.
+        pose proof (c_block_catch sp h F st _ _ (c_defined_body sp (set_stack st []) _ _ Hc eq_refl)) as Blk.
+        replace (VBool (negb (is_undef (eval (env_of vars) e))))
+          with (or_false (match bool_cast (eval (env_of vars) e) with VUndef => VUndef | _ => VBool true end));
+          [exact Blk | destruct (eval (env_of vars) e); reflexivity].
+    - (* ENeg *) cbn [frag1] in Fr. cbn [tyof] in Ht.
+      destruct (tyof cg sp e) as [[|]|] eqn:Ta; try discriminate. injection Ht as <-.
+      cbn [eval emit].
+      assert (HR1 : R cg sp (env_of vars) (set_stack st (V64 0 :: s_stack st))) by (eapply R_keeps; [exact HR | apply keeps_stack]).
+      destruct (IHe Fr cg sp h F vars _ TInt Ta HR1 HF) as [Tv Ha]. cbn [set_stack s_stack] in Ha.
+      split; [destruct (eval (env_of vars) e); try exact I; reflexivity|].
+      eapply (computes_after sp h F (s_stack st) [IConst (V64 0)]); [apply keeps_stack | intros rest o Hr; cbn [app]; apply step_const; exact Hr |].
+      eapply computes_bind; [exact Ha | intros ->; reflexivity |].
+      intros N st' K S. destruct (int_or_undef _ Tv) as [E | [x E]]; [contradiction|]. rewrite E in *.
+      cbn [v_neg]. eapply c_bin; [exact S | reflexivity | discriminate | cbn [val_of]; rewrite <- (Z.sub_0_l x); reflexivity].
+    - (* EBitNot *) cbn [frag1] in Fr. cbn [tyof] in Ht.
+      destruct (tyof cg sp e) as [[|]|] eqn:Ta; try discriminate. injection Ht as <-.
+      cbn [eval emit].
+      destruct (IHe Fr cg sp h F vars st TInt Ta HR HF) as [Tv Ha].
+      split; [destruct (eval (env_of vars) e); try exact I; reflexivity|].
+      eapply computes_bind; [exact Ha | intros ->; reflexivity |].
+      intros N st' K S. destruct (int_or_undef _ Tv) as [E | [x E]]; [contradiction|]. rewrite E in *.
+      cbn [v_bitnot].
+      assert (X : Z.lxor x (-1) = Z.lnot x) by apply Z.lxor_m1_r.
+      eapply (computes_after sp h F (s_stack st) [IConst (V64 (-1))]); [apply keeps_stack | intros rest o Hr; cbn [app]; apply step_const; exact Hr |].
+      eapply c_bin; [cbn [set_stack s_stack]; rewrite S; reflexivity | reflexivity | discriminate | cbn [val_of]; rewrite X; reflexivity].
+    - (* EArith *) cbn [frag1] in Fr. apply andb_true_iff in Fr. destruct Fr as [Fr1 Fr2]. cbn [tyof] in Ht.
+      destruct (tyof cg sp e1) as [[|]|] eqn:Ta; try discriminate.
+      destruct (tyof cg sp e2) as [[|]|] eqn:Tb; try discriminate. injection Ht as <-.
+      destruct (IHe1 Fr1 cg sp h F vars st TInt Ta HR HF) as [Tva Ha].
+      assert (Hb : forall st', keeps sp st st' -> s_stack st' = val_of (eval (env_of vars) e1) :: s_stack st ->
+                   types_as TInt (eval (env_of vars) e2) /\
+                   computes sp h F (val_of (eval (env_of vars) e1) :: s_stack st) (emit cg sp h e2) (eval (env_of vars) e2) st').
+      { intros st' K S. assert (HR' : R cg sp (env_of vars) st') by (eapply R_keeps; eassumption).
+        destruct (IHe2 Fr2 cg sp h F vars st' TInt Tb HR' HF) as [T Hb]. rewrite S in Hb. split; assumption. }
+      assert (Tvb : types_as TInt (eval (env_of vars) e2)).
+      { destruct (IHe2 Fr2 cg sp h F vars st TInt Tb HR HF) as [T _]. exact T. }
+      cbn [eval]. rewrite (v_arith_ints op _ _ Tva Tvb).
+      split; [apply on_ints2_types; apply arith_int_types|].
+      pose proof (R_sp _ _ _ _ HR) as Hsp.
+      cbn [emit]. destruct op.
+      1,2,3,8,9,10: (apply (c_int2 sp h F (s_stack st) (s_stack st)); [exact Tva | exact Tvb | exact Ha | intros st' K S; exact (proj2 (Hb st' K S)) |
+                     intros x y st'' K S; apply c_arith_plain; [exact I | exact S]]).
+      + apply (c_int2 sp h F (s_stack st) (s_stack st)); [exact Tva | exact Tvb | exact Ha | intros st' K S; exact (proj2 (Hb st' K S)) |].
+        intros x y st'' K S. apply c_div; [exact HF | exact Hsp | exact S].
+      + apply (c_int2 sp h F (s_stack st) (s_stack st)); [exact Tva | exact Tvb | exact Ha | intros st' K S; exact (proj2 (Hb st' K S)) |].
+        intros x y st'' K S. apply c_mod; [exact HF | exact Hsp | exact S].
+      + apply (c_int2 sp h F (s_stack st) (s_stack st)); [exact Tva | exact Tvb | exact Ha | intros st' K S; exact (proj2 (Hb st' K S)) |].
+        intros x y st'' K S. apply c_shift; [left; reflexivity | exact S].
+      + apply (c_int2 sp h F (s_stack st) (s_stack st)); [exact Tva | exact Tvb | exact Ha | intros st' K S; exact (proj2 (Hb st' K S)) |].
+        intros x y st'' K S. apply c_shift; [right; reflexivity | exact S].
+    - (* ECmp *) cbn [frag1] in Fr. apply andb_true_iff in Fr. destruct Fr as [Fr1 Fr2]. cbn [tyof] in Ht.
+      destruct (tyof cg sp e1) as [[|]|] eqn:Ta; try discriminate;
+      destruct (tyof cg sp e2) as [[|]|] eqn:Tb; try discriminate.
+      + (* booleans: only == *)
+        destruct op; try discriminate. injection Ht as <-.
+        destruct (IHe1 Fr1 cg sp h F vars st TBool Ta HR HF) as [Tva Ha].
+        assert (Tvb : types_as TBool (eval (env_of vars) e2)).
+        { destruct (IHe2 Fr2 cg sp h F vars st TBool Tb HR HF) as [T _]. exact T. }
+        cbn [eval emit]. rewrite Ta.
+        split.
+        { destruct (bool_or_undef _ Tva) as [-> | [x ->]]; [exact I|].
+          destruct (bool_or_undef _ Tvb) as [-> | [y ->]]; [exact I|]. reflexivity. }
+        eapply computes_bind; [exact Ha | intros ->; reflexivity |].
+        intros Na st1 K1 S1. destruct (bool_or_undef _ Tva) as [E | [x E]]; [contradiction|]. rewrite E in *.
+        eapply (computes_after sp h F (s_stack st) [IUn I64ExtendUI32] _ _ st1 (set_stack st1 (V64 (b2z x) :: s_stack st))).
+        { apply keeps_stack. }
+        { intros rest o Hr. cbn [app]. eapply step_un; [exact S1 | reflexivity | exact Hr]. }
+        assert (HR2 : R cg sp (env_of vars) (set_stack st1 (V64 (b2z x) :: s_stack st))).
+        { eapply R_keeps; [exact HR | eapply keeps_trans; [exact K1 | apply keeps_stack]]. }
+        destruct (IHe2 Fr2 cg sp h F vars _ TBool Tb HR2 HF) as [_ Hb]. cbn [set_stack s_stack] in Hb.
+        eapply computes_bind; [exact Hb | intros ->; reflexivity |].
+        intros Nb st3 K3 S3. destruct (bool_or_undef _ Tvb) as [E2 | [y E2]]; [contradiction|]. rewrite E2 in *.
+        cbn [v_cmp]. split; [intros _ | intros E'; discriminate].
+        pure_code ltac:(cbn [app]; (eapply step_un; [exact S3 | reflexivity |]);
+          (eapply step_bin; [reflexivity | reflexivity |]); cbn [set_stack s_stack];
+          replace (b2z x =? b2z y) with (Bool.eqb x y) by (destruct x, y; reflexivity)).
+      + (* integers *)
+        injection Ht as <-.
+        destruct (IHe1 Fr1 cg sp h F vars st TInt Ta HR HF) as [Tva Ha].
+        assert (Tvb : types_as TInt (eval (env_of vars) e2)).
+        { destruct (IHe2 Fr2 cg sp h F vars st TInt Tb HR HF) as [T _]. exact T. }
+        cbn [eval emit]. rewrite Ta. rewrite (v_cmp_ints op _ _ Tva Tvb).
+        split; [apply on_ints2_types; intros; reflexivity|].
+        apply (c_int2 sp h F (s_stack st) (s_stack st)); [exact Tva | exact Tvb | exact Ha | |].
+        * intros st' K S. assert (HR' : R cg sp (env_of vars) st') by (eapply R_keeps; eassumption).
+          destruct (IHe2 Fr2 cg sp h F vars st' TInt Tb HR' HF) as [_ Hb]. rewrite S in Hb. exact Hb.
+        * intros x y st'' K S. eapply c_bin; [exact S | apply cmp_bin | discriminate | reflexivity].
+    - (* ERead *) cbn [frag1] in Fr. destruct k as [n sg be]. cbn [tyof] in Ht.
+      destruct (tyof cg sp e) as [[|]|] eqn:Ta; try discriminate.
+      destruct (Nat.eqb n 1 || Nat.eqb n 2 || Nat.eqb n 4); try discriminate. injection Ht as <-.
+      destruct (IHe Fr cg sp h F vars st TInt Ta HR HF) as [Tv Ha].
+      cbn [eval emit env_of e_data e_len].
+      change (match eval (env_of vars) e with
+              | VInt o => read_int (IK n sg be) data (Z.of_nat (length data)) o
+              | _ => VUndef end)
+        with (on_int1 (fun o => read_int (IK n sg be) data (Z.of_nat (length data)) o) (eval (env_of vars) e)).
+      split; [apply on_int1_types; intros; apply read_int_shape|].
+      apply (c_int1 sp h F (s_stack st) (s_stack st)); [exact Tv | exact Ha |].
+      intros x st'' K S.
+      apply (c_call_undef_int sp h F (s_stack st) st'' (HReadInt n sg be) [V64 x]); try exact HF; try exact I; try reflexivity.
+      * exact S.
+      * apply read_int_shape.
+    - (* EPat *) cbn [frag1] in Fr. apply andb_true_iff in Fr. destruct Fr as [Fr1 Fr2]. cbn [tyof] in Ht.
+      destruct p as [i|]; [|destruct ak; discriminate].
+      cbn [eval resolve emit]. destruct ak.
+      + (* $a *) injection Ht as <-. cbn [pat_item]. split; [reflexivity|].
+        apply c_pat_prefix. intros st1 K D S.
+        eapply (c_call_pure sp h F (s_stack st) st1 HCheckMatch [V32 (Z.of_nat i)]);
+          [exact S | reflexivity | exact I | cbn [host_spec]; rewrite D, Nat2Z.id; reflexivity | discriminate | reflexivity].
+      + (* $a at e *)
+        destruct (tyof cg sp e1) as [[|]|] eqn:Ta; try discriminate. injection Ht as <-.
+        cbn [env_of e_pm].
+        change (pat_item (pm i) AAt (eval (env_of vars) e1) (eval (env_of vars) e2))
+          with (on_int1 (fun o => VBool (match_at (pm i) o)) (eval (env_of vars) e1)).
+        split; [apply on_int1_types; intros; reflexivity|].
+        apply c_pat_prefix. intros st1 K D S.
+        assert (HR1 : R cg sp (env_of vars) st1) by (eapply R_keeps; eassumption).
+        destruct (IHe1 Fr1 cg sp h F vars st1 TInt Ta HR1 HF) as [Tv Ha]. rewrite S in Ha.
+        apply (c_int1 sp h F (s_stack st) (V32 (Z.of_nat i) :: s_stack st)); [exact Tv | exact Ha |].
+        intros x st'' K' S'.
+        eapply (c_call_pure sp h F (s_stack st) st'' HMatchAt [V32 (Z.of_nat i); V64 x]);
+          [exact S' | reflexivity | exact I | cbn [host_spec]; destruct K' as [_ [_ [Dn _]]]; rewrite (Dn D), Nat2Z.id; reflexivity | discriminate | reflexivity].
+      + (* $a in (lo..hi) *)
+        destruct (tyof cg sp e1) as [[|]|] eqn:Ta; try discriminate.
+        destruct (tyof cg sp e2) as [[|]|] eqn:Tb; try discriminate. injection Ht as <-.
+        cbn [env_of e_pm].
+        change (pat_item (pm i) AIn (eval (env_of vars) e1) (eval (env_of vars) e2))
+          with (on_ints2 (fun l hh => VBool (match_in (pm i) l hh)) (eval (env_of vars) e1) (eval (env_of vars) e2)).
+        split; [apply on_ints2_types; intros; reflexivity|].
+        apply c_pat_prefix. intros st1 K D S.
+        assert (HR1 : R cg sp (env_of vars) st1) by (eapply R_keeps; eassumption).
+        destruct (IHe1 Fr1 cg sp h F vars st1 TInt Ta HR1 HF) as [Tva Ha]. rewrite S in Ha.
+        assert (Tvb : types_as TInt (eval (env_of vars) e2)).
+        { destruct (IHe2 Fr2 cg sp h F vars st1 TInt Tb HR1 HF) as [T _]. exact T. }
+        apply (c_int2 sp h F (s_stack st) (V32 (Z.of_nat i) :: s_stack st)); [exact Tva | exact Tvb | exact Ha | |].
+        * intros st' K' S'. assert (HR' : R cg sp (env_of vars) st') by (eapply R_keeps; eassumption).
+          destruct (IHe2 Fr2 cg sp h F vars st' TInt Tb HR' HF) as [_ Hb]. rewrite S' in Hb. exact Hb.
+        * intros x y st'' K' S'.
+          eapply (c_call_pure sp h F (s_stack st) st'' HMatchIn [V32 (Z.of_nat i); V64 x; V64 y]);
+            [exact S' | reflexivity | exact I | cbn [host_spec]; destruct K' as [_ [_ [Dn _]]]; rewrite (Dn D), Nat2Z.id; reflexivity | discriminate | reflexivity].
+    - (* ECount *) cbn [frag1] in Fr. apply andb_true_iff in Fr. destruct Fr as [Fr1 Fr2]. cbn [tyof] in Ht.
+      destruct p as [i|]; [|destruct ranged; discriminate].
+      cbn [eval resolve emit env_of e_pm]. destruct ranged.
+      + destruct (tyof cg sp e1) as [[|]|] eqn:Ta; try discriminate.
+        destruct (tyof cg sp e2) as [[|]|] eqn:Tb; try discriminate. injection Ht as <-.
+        change (v_count (pm i) true (eval (env_of vars) e1) (eval (env_of vars) e2))
+          with (on_ints2 (fun l hh => VInt (count_in (pm i) l hh)) (eval (env_of vars) e1) (eval (env_of vars) e2)).
+        split; [apply on_ints2_types; intros; reflexivity|].
+        apply c_pat_prefix. intros st1 K D S.
+        assert (HR1 : R cg sp (env_of vars) st1) by (eapply R_keeps; eassumption).
+        destruct (IHe1 Fr1 cg sp h F vars st1 TInt Ta HR1 HF) as [Tva Ha]. rewrite S in Ha.
+        assert (Tvb : types_as TInt (eval (env_of vars) e2)).
+        { destruct (IHe2 Fr2 cg sp h F vars st1 TInt Tb HR1 HF) as [T _]. exact T. }
+        apply (c_int2 sp h F (s_stack st) (V32 (Z.of_nat i) :: s_stack st)); [exact Tva | exact Tvb | exact Ha | |].
+        * intros st' K' S'. assert (HR' : R cg sp (env_of vars) st') by (eapply R_keeps; eassumption).
+          destruct (IHe2 Fr2 cg sp h F vars st' TInt Tb HR' HF) as [_ Hb]. rewrite S' in Hb. exact Hb.
+        * intros x y st'' K' S'.
+          eapply (c_call_pure sp h F (s_stack st) st'' HMatchesIn [V32 (Z.of_nat i); V64 x; V64 y]);
+            [exact S' | reflexivity | exact I | cbn [host_spec]; destruct K' as [_ [_ [Dn _]]]; rewrite (Dn D), Nat2Z.id; reflexivity | discriminate | reflexivity].
+      + injection Ht as <-. cbn [v_count]. split; [reflexivity|].
+        apply c_pat_prefix. intros st1 K D S.
+        eapply (c_call_pure sp h F (s_stack st) st1 HMatches [V32 (Z.of_nat i)]);
+          [exact S | reflexivity | exact I | cbn [host_spec]; rewrite D, Nat2Z.id; reflexivity | discriminate | reflexivity].
+    - (* EOffset *) cbn [frag1] in Fr. cbn [tyof] in Ht. destruct p as [i|]; [|discriminate].
+      destruct (tyof cg sp e) as [[|]|] eqn:Ta; try discriminate. injection Ht as <-.
+      cbn [eval resolve emit env_of e_pm].
+      replace (v_offset (pm i) (eval (env_of vars) e))
+        with (on_int1 (fun z => v_offset (pm i) (VInt z)) (eval (env_of vars) e))
+        by (destruct (eval (env_of vars) e); reflexivity).
+      split; [apply on_int1_types; intros; apply v_offset_shape|].
+      apply c_pat_prefix. intros st1 K D S.
+      assert (HR1 : R cg sp (env_of vars) st1) by (eapply R_keeps; eassumption).
+      destruct (IHe Fr cg sp h F vars st1 TInt Ta HR1 HF) as [Tv Ha]. rewrite S in Ha.
+      apply (c_int1 sp h F (s_stack st) (V32 (Z.of_nat i) :: s_stack st)); [exact Tv | exact Ha |].
+      intros x st'' K' S'.
+      apply (c_call_undef_int sp h F (s_stack st) st'' HOffset [V32 (Z.of_nat i); V64 x]);
+        [exact HF | exact S' | reflexivity | exact I | apply v_offset_shape | cbn [host_spec]; destruct K' as [_ [_ [Dn _]]]; rewrite (Dn D), Nat2Z.id; reflexivity].
+    - (* ELength *) cbn [frag1] in Fr. cbn [tyof] in Ht. destruct p as [i|]; [|discriminate].
+      destruct (tyof cg sp e) as [[|]|] eqn:Ta; try discriminate. injection Ht as <-.
+      cbn [eval resolve emit env_of e_pm].
+      replace (v_length (pm i) (eval (env_of vars) e))
+        with (on_int1 (fun z => v_length (pm i) (VInt z)) (eval (env_of vars) e))
+        by (destruct (eval (env_of vars) e); reflexivity).
+      split; [apply on_int1_types; intros; apply v_length_shape|].
+      apply c_pat_prefix. intros st1 K D S.
+      assert (HR1 : R cg sp (env_of vars) st1) by (eapply R_keeps; eassumption).
+      destruct (IHe Fr cg sp h F vars st1 TInt Ta HR1 HF) as [Tv Ha]. rewrite S in Ha.
+      apply (c_int1 sp h F (s_stack st) (V32 (Z.of_nat i) :: s_stack st)); [exact Tv | exact Ha |].
+      intros x st'' K' S'.
+      apply (c_call_undef_int sp h F (s_stack st) st'' HLength [V32 (Z.of_nat i); V64 x]);
+        [exact HF | exact S' | reflexivity | exact I | apply v_length_shape | cbn [host_spec]; destruct K' as [_ [_ [Dn _]]]; rewrite (Dn D), Nat2Z.id; reflexivity].
+    - (* EWith *) cbn [frag1] in Fr. apply andb_true_iff in Fr. destruct Fr as [Fr1 Fr2]. cbn [tyof] in Ht.
+      destruct (tyof cg (S sp) e1) as [td|] eqn:Td; try discriminate.
+      destruct (Nat.ltb sp (Z.to_nat MAX_VARS)) eqn:Lt; try discriminate. apply Nat.ltb_lt in Lt.
+      destruct (tyof ((x, (sp, td)) :: cg) (S sp) e2) as [[|]|] eqn:Tb; try discriminate. injection Ht as <-.
+      cbn [eval emit]. rewrite Td. unfold catch_undef. fold (hW sp).
+      change (bind x (eval (env_of vars) e1) (env_of vars)) with (env_of ((x, eval (env_of vars) e1) :: vars)).
+      set (vd := eval (env_of vars) e1).
+      (* the declaration *)
+      assert (HRA : R cg (S sp) (env_of vars) (set_stack st [V32 (slot_addr sp)])).
+      { apply R_more_slots; [eapply R_keeps; [exact HR | apply keeps_stack] | lia]. }
+      destruct (IHe1 Fr1 cg (S sp) (hW sp) (FW sp) vars _ td Td HRA (hspec_hW sp)) as [Tvd Hd].
+      cbn [set_stack s_stack] in Hd. fold vd in Tvd, Hd.
+      assert (NS : forall s, vd <> VStr s) by (intros s E; rewrite E in Tvd; exact Tvd).
+      destruct (c_set_var_catch sp td _ vd st Lt Tvd (NS []) NS Hd) as [st' [K [Sk [OK C]]]].
+      (* the body *)
+      assert (HRB : R ((x, (sp, td)) :: cg) (S sp) (env_of ((x, vd) :: vars)) st') by (eapply R_bind; try eassumption; lia).
+      destruct (IHe2 Fr2 _ (S sp) h F _ st' TBool Tb HRB HF) as [Tvb Hb].
+      split; [exact Tvb|].
+      eapply computes_after; [exact K | exact C |].
+      rewrite Sk in Hb. eapply computes_weaken; [|exact Hb]. lia.
+  Qed.
+
+  (* ----------------------------------------------------- whole conditions *)
+  (* any state a rule's code can start in: the data's size in the filesize
+     global, sign-extended flag words; the contents of the variable area
+     are arbitrary *)
+  Definition start_ok (st : state) : Prop :=
+    s_filesize st = Z.of_nat (length data) /\ flags_wf st.
+
+  Lemma R_start : forall st, start_ok st -> R [] 0 (env_of []) st.
+  Proof.
+    intros st [Hf Hw]. repeat split; auto; try (cbn in *; discriminate). lia.
+  Qed.
+
+  (* emit_correct: the code emitted for a condition of the (loop-free)
+     fragment, run from any start state, ends normally with exactly the
+     documented verdict on top of the stack *)
+  Theorem emit_correct_partial : forall e st,
+    frag1 e = true -> tyof [] 0 e = Some TBool -> start_ok st ->
+    exists st', bs (emit_condition e) st (ONormal st') /\
+                s_stack st' = V32 (b2z (holds (env_of []) e)) :: s_stack st.
+  Proof.
+    intros e st Fr Ht Hs.
+    assert (HR0 : R [] 0 (env_of []) (set_stack st [])).
+    { eapply R_keeps; [apply R_start; exact Hs | apply keeps_stack]. }
+    destruct (emit_ok1 e Fr [] 0%nat h0 F0 [] (set_stack st []) TBool Ht HR0 hspec_h0) as [Tv Hc].
+    pose proof (c_block_catch 0 h0 F0 st (emit [] 0 h0 e) _ Hc) as Blk.
+    rewrite (or_false_bool _ Tv) in Blk. destruct Blk as [D _].
+    destruct (D ltac:(discriminate)) as [st' [K [S C]]].
+    exists st'. split; [|exact S].
+    unfold emit_condition, catch_undef, emit_bool. rewrite Ht, app_nil_r. fold h0.
+    rewrite <- (app_nil_r [IBlock 1 (emit [] 0 h0 e)]). apply C. apply BNil.
+  Qed.
+
+  (* the full statement: the same for every condition of the fragment of
+     Cond/Emit.v, i.e. including `for .. in` over ranges and `of` through
+     pat_range_match; proved so far for [frag1] (above) and evaluated on the
+     generated conditions of the whole fragment by K (Check.machine_agrees) *)
+  Definition emit_correct_statement : Prop :=
+    forall e st, tyof [] 0 e = Some TBool -> start_ok st ->
+      exists st', bs (emit_condition e) st (ONormal st') /\
+                  s_stack st' = V32 (b2z (holds (env_of []) e)) :: s_stack st.
+
+  (* ... hence the executable semantics computes it for every sufficient
+     amount of fuel (out-of-fuel excluded by the statement) *)
+  Corollary run_condition_correct : forall e,
+    frag1 e = true -> tyof [] 0 e = Some TBool ->
+    exists N, forall fuel, (N <= fuel)%nat ->
+      run_condition data pm rules globals fuel e = Some (holds (env_of []) e).
+  Proof.
+    intros e Fr Ht.
+    assert (Hs : start_ok (init_state data)) by (split; [reflexivity | intros slot _; apply word_ok_0]).
+    destruct (emit_correct_partial e _ Fr Ht Hs) as [st' [B S]].
+    destruct (bstep_exec host _ _ _ B) as [N HN]. exists N. intros fuel Hf.
+    unfold run_condition. rewrite (HN fuel Hf), S. cbn [init_state s_stack].
+    destruct (holds (env_of []) e); reflexivity.
+  Qed.
+
+  (* the emitted code never traps and never gets stuck *)
+  Corollary emit_no_trap : forall e st o,
+    frag1 e = true -> tyof [] 0 e = Some TBool -> start_ok st ->
+    bs (emit_condition e) st o -> exists st', o = ONormal st'.
+  Proof.
+    intros e st o Fr Ht Hs Ho. destruct (emit_correct_partial e st Fr Ht Hs) as [st' [B _]].
+    exists st'. exact (bstep_deterministic host _ _ _ _ Ho B).
+  Qed.
+
+  (* variables are written before they are read: whatever the variable area
+     contains when a rule's code starts (left-overs of the rules evaluated
+     before), the verdict is the same *)
+  Corollary vars_written_before_read : forall e st1 st2 o1 o2,
+    frag1 e = true -> tyof [] 0 e = Some TBool -> start_ok st1 -> start_ok st2 ->
+    s_stack st1 = [] -> s_stack st2 = [] ->
+    bs (emit_condition e) st1 o1 -> bs (emit_condition e) st2 o2 ->
+    exists a b, o1 = ONormal a /\ o2 = ONormal b /\ s_stack a = s_stack b.
+  Proof.
+    intros e st1 st2 o1 o2 Fr Ht H1 H2 S1 S2 B1 B2.
+    destruct (emit_correct_partial e st1 Fr Ht H1) as [a [Ba Sa]].
+    destruct (emit_correct_partial e st2 Fr Ht H2) as [b [Bb Sb]].
+    exists a, b. split; [exact (bstep_deterministic host _ _ _ _ B1 Ba)|].
+    split; [exact (bstep_deterministic host _ _ _ _ B2 Bb)|]. rewrite Sa, Sb, S1, S2. reflexivity.
+  Qed.
 End Correct.
+
+(* the fragment is not empty: a condition with undefined values, a pattern
+   anchored at a computed offset, a division and a `with` *)
+Example frag1_example :
+  let e := EWith 0%nat (EArith Div EFilesize (EArith Sub EFilesize (EInt 5)))
+             (EOr (ECmp Eq (EVar 0%nat) (EInt 1)) (EPat (PId 0) AAt (EArith Add EFilesize (EInt (-2))) (EInt 0))) in
+  frag1 e = true /\ tyof [] 0 e = Some TBool /\
+  run_condition [97; 98; 99; 97; 98] (fun _ => [(3, 2)]) (fun _ => false) (fun _ => VUndef) 1000 e = Some true.
+Proof. vm_compute. repeat split. Qed.
